@@ -48,9 +48,9 @@ def generic_part(V, tr, sd, checks=("C01",), emit=None, fluid=None, heights=Fals
         if heights or (emit is None and i % 4 == 3):
             # junctions at different heights (hydrostatic terms; ambient pressure differs between the ends of a branch)
             prm["heights"] = {j["lab"]: HEIGHTS[(j["lab"] + i) % len(HEIGHTS)] for j in n["net"]["J"]}
-            for _ in range(len(n["net"]["E"])):       # the two ends of a compressor (a zero-length machine) share a height
+            for _ in range(len(n["net"]["E"])):       # the two ends of a machine (a zero-length element with a prescribed lift / ratio) share a height
                 for e in n["net"]["E"]:
-                    if e["tbl"] == "compressor":
+                    if e["tbl"] in ("compressor", "circ_pump_pressure", "circ_pump_mass", "pump"):
                         prm["heights"][e["b"]] = prm["heights"][e["a"]]
         for e in n["net"]["E"]:
             if e["tbl"] == "compressor":
